@@ -429,6 +429,21 @@ class Expander:
                 for n in ast.walk(st.target):
                     if isinstance(n, ast.Name) and not (bound and n.id == elem_t.id):
                         self.loopvars.add(n.id)
+                # "one generic iteration stands for all" holds only if no value is handed from one iteration to the next: a name bound
+                # before the loop and re-bound in it from its own value by a product / quotient / power (`G = G / l**2`) is different in
+                # every iteration (sums `T += e` are accumulations the rules deal with explicitly)
+                for b_ in st.body:
+                    for s2 in ast.walk(b_):
+                        carried = None
+                        if isinstance(s2, ast.Assign) and len(s2.targets) == 1 and isinstance(s2.targets[0], ast.Name) \
+                                and any(isinstance(x, ast.Name) and x.id == s2.targets[0].id for x in ast.walk(s2.value)) \
+                                and not (isinstance(s2.value, ast.BinOp) and isinstance(s2.value.op, (ast.Add, ast.Sub))):
+                            carried = s2.targets[0].id
+                        elif isinstance(s2, ast.AugAssign) and isinstance(s2.target, ast.Name) and isinstance(s2.op, (ast.Mult, ast.Div, ast.Pow, ast.FloorDiv, ast.Mod)):
+                            carried = s2.target.id
+                        if carried is not None and carried in env and carried not in {x.id for x in ast.walk(st.target) if isinstance(x, ast.Name)}:
+                            raise Unsupported(f"`{carried}` is carried from one iteration of the loop at line {st.lineno} to the next "
+                                              f"(`{ast.unparse(s2)[:60]}`): a single generic iteration does not describe the loop")
                 self.exec_block(st.body, env)
                 self.exec_block(st.orelse, env)       # for .. else: the else suite runs after the loop (no `break` in the generic iteration)
                 return
